@@ -276,7 +276,7 @@ class _R:
             extra_blank = -(1 + rng.next(2))      # trailing blank lines that chomping removes
         if style == "fold":
             lines = unfold_lines(lines, rng)
-        n = 1 + rng.next(4)
+        n = 1 + rng.next(4) if rng.chance(2, 3) else 1 + rng.next(9)       # indentation indicators 1-9
         base = cur_indent if cur_indent >= 0 else 0
         col = base + n
         first_content = next((l for l in lines if l != ""), None)
@@ -731,7 +731,8 @@ DEFAULT_TAGSPECS = [None, None, None, None, None, ("h", "!!", "str"), ("h", "!!"
                     ("h", "!!", "set"), ("h", "!!", "omap"), ("h", "!!", "pairs"),
                     ("h", "!", "local"), ("h", "!", "a/b.c-d"), ("v", "tag:yaml.org,2002:str"), ("v", "!x"),
                     ("v", "tag:example.com,2000:app/x"), ("h", "!e!", "t"), ("h", "!e!", "x%C3%A9"), ("h", "!", "p%21q"),
-                    ("h", "!!", "python/tuple"), ("h", "!!", "python/name:a.b")]
+                    ("h", "!!", "python/tuple"), ("h", "!!", "python/name:a.b"),
+                    ("h", "!e0!", "t9"), ("h", "!9_z!", "0"), ("v", "tag:e.org,2009:x0")]
 
 
 def nodes(max_leaves=10, tagspecs=None, texts=None, allow_nonspecific=False, styles=None):
@@ -755,7 +756,8 @@ def nodes(max_leaves=10, tagspecs=None, texts=None, allow_nonspecific=False, sty
 
 def documents(max_leaves=10, **kw):
     handles = st.sampled_from([[], [], [], [("!e!", "tag:example.com,2000:")], [("!e!", "!my-")],
-                               [("!e!", "tag:e.org,2000:"), ("!f-1!", "tag:f.org,2001:x/")]])
+                               [("!e!", "tag:e.org,2000:"), ("!f-1!", "tag:f.org,2001:x/")],
+                               [("!e0!", "tag:e.org,2009:"), ("!9_z!", "!nine-")], [("!e0!", "!zero-"), ("!e!", "tag:e.org,2000:")]])
     return st.fixed_dictionaries({
         "version": st.sampled_from([None, None, None, (1, 1), (1, 2)]),
         "handles": handles,
